@@ -200,8 +200,34 @@ macro_rules! opaque {
     )*}
 }
 
-fn ipv4(g: &mut Gen) -> std::net::Ipv4Addr { std::net::Ipv4Addr::from(g.raw_u32()) }
-fn ipv6(g: &mut Gen) -> std::net::Ipv6Addr { std::net::Ipv6Addr::from((g.raw_u64() as u128) << 64 | g.raw_u64() as u128) }
+/// Addresses with the address classes that std (and code written against std) treats specially: unspecified,
+/// loopback, broadcast, private, link-local, multicast, documentation - next to uniformly random ones.
+fn ipv4(g: &mut Gen) -> std::net::Ipv4Addr {
+    let r = g.raw_u32();
+    std::net::Ipv4Addr::from(match g.below(12) {
+        0 => 0, 1 => 0x7f00_0001, 2 => 0xffff_ffff, 3 => 0x0a00_0000 | (r & 0x00ff_ffff), 4 => 0xc0a8_0000 | (r & 0xffff), 5 => 0xa9fe_0000 | (r & 0xffff),
+        6 => 0xe000_0000 | (r & 0x0fff_ffff), 7 => 0xc000_0200 | (r & 0xff), _ => r
+    })
+}
+/// IPv6 likewise, including the embeddings of IPv4 (mapped `::ffff:a.b.c.d`, compatible `::a.b.c.d`, NAT64, 6to4) which
+/// `to_canonical` / `to_ipv4*` fold into IPv4 addresses.
+fn ipv6(g: &mut Gen) -> std::net::Ipv6Addr {
+    let hi = g.raw_u64() as u128;
+    let lo = g.raw_u64() as u128;
+    let v4 = u32::from(ipv4(g)) as u128;
+    std::net::Ipv6Addr::from(match g.below(16) {
+        0 => 0, 1 => 1, 2 => u128::MAX,
+        3 | 4 => 0xffff_0000_0000 | v4,                      // IPv4-mapped
+        5 => v4,                                             // IPv4-compatible
+        6 => (0x0064_ff9bu128 << 96) | v4,                   // NAT64 well-known prefix
+        7 => (0x2002u128 << 112) | (v4 << 80) | (lo & 0xffff_ffff_ffff_ffff_ffff), // 6to4
+        8 => (0xfe80u128 << 112) | lo,                       // link-local
+        9 => (0xff02u128 << 112) | (lo & 0xffff),            // multicast
+        10 => (0x2001_0db8u128 << 96) | (lo & 0xffff_ffff),  // documentation
+        11 => (0xfc00u128 << 112) | lo,                      // unique local
+        _ => (hi << 64) | lo
+    })
+}
 
 opaque! {
     std::time::Duration, |g| { let s = g.u64(); let n = match g.below(4) { 0 => 0, 1 => 999_999_999, 2 => g.u32() % 1_000_000_000, _ => g.raw_u32() % 1_000_000_000 }; std::time::Duration::new(s, n) };
